@@ -108,6 +108,7 @@ func allocated(x any) bool { return true }
 func typeIs[T any](x any) bool { return true }
 func nonnil(x any) bool { return true }
 func sameSlice(a, b any) bool { return true }
+func offsetIn(a, b any) int { return 0 }
 func aliases(a, b any, off int) bool { return true }
 func disjoint(a, b any) bool { return true }
 func bytesEq(a, b any) bool { return true }
@@ -133,6 +134,7 @@ func heapLen(x any) int { return 0 }
 func heapMin(x any) uint64 { return 0 }
 func calls(f string) int { return 0 }
 func lastret(f string) int { return 0 }
+func lastretOf[T any](f string) T { var z T; return z }
 func lockOf(x any) any { return x }
 func ite[T any](c bool, a, b T) T { if c { return a }; return b }
 func buflen(b any) int { return 0 }
